@@ -11,13 +11,16 @@ def run(tier, seed, replay=None):
     n = 160 if tier == "quick" else 4000
     lines, wd = subfam.run_family(ck, binary, "announce", n, seed, strict=True)
     shutil.rmtree(wd, ignore_errors=True)
+    lines, wd = subfam.run_family(ck, binary, "faults", n, seed, strict=True)
+    shutil.rmtree(wd, ignore_errors=True)
     lines, wd = subfam.run_family(ck, binary, "mixed", n, seed, strict=False)
     subfam.quiescence_findings(ck, lines)
     shutil.rmtree(wd, ignore_errors=True)
     ck.cov["rule"] = ("seeded random schedules of a real Subscriber (1-3 real publishers x 3 ads, semaphore none/1/2) under the gate scheduler: at every step "
                       "either one parked goroutine is released or the environment announces the next head / starts an explicit sync; every yield hook is an "
                       "event; TLC validates each trace (lock exclusivity, semaphore bound, coalescing, hooks inside the publisher's sync lock) and the "
-                      "end-of-run quiescence clause; family 'mixed' adds explicit syncs of the same publishers")
+                      "end-of-run quiescence clause; family 'faults' answers some block requests with status 500 and announces failed heads again; family 'mixed' adds explicit syncs of the same "
+                      "publishers, a quarter of them under a context that is cancelled at a random point")
     ck.assumptions += ["schedules are those reachable by parking goroutines at the hooks (one runs at a time); real-time races between hooks are not explored",
                        "mixed runs: violations of exactly-once / final-latest / notification order in which an explicit sync overlaps another sync of the same publisher are the known findings F-C08-1..3"]
     return ck
